@@ -31,6 +31,36 @@ def patsTotal (pats : List Pat) : Bool :=
   endsDefaultP pats || (pats.any hasNonePat && pats.any (hasBindPat .Some)) ||
     (pats.any (hasBindPat .Ok) && pats.any (hasBindPat .Err))
 
+/-- all pattern values of a match, in source order (what `scanPats` collects in `Scan.all`) -/
+def flattenPats : List Pat → List Expr
+  | [] => []
+  | .default :: r => flattenPats r
+  | .values vs :: r => vs ++ flattenPats r
+
+def flatLit : Expr → Bool
+  | .bool _ | .enumRef _ _ _ => true
+  | _ => false
+def flatPat : Pat → Bool
+  | .values vs => vs.all flatLit
+  | .default => false
+/-- no default arm, at least one arm, every pattern is `true` / `false` or an enum variant: that
+some arm is selected is what the compiler's exhaustiveness check (`missingDefault`, by counting the
+distinct patterns against the cardinality of the scrutinee type) guarantees -/
+def patsFlat (pats : List Pat) : Bool := pats.all flatPat && !(flattenPats pats).isEmpty
+
+/-- the value of a (lowered) literal pattern without struct parts -/
+def litVal : Expr → Option Val
+  | .unit => some .unit
+  | .int i => some (.int i)
+  | .str s => some (.str s)
+  | .bool b => some (.bool b)
+  | .enumRef n _ v => some (.enum n v)
+  | .none => some .none
+  | .some e => (litVal e).map .some
+  | .ok e => (litVal e).map .ok
+  | .err e => (litVal e).map .err
+  | _ => none
+
 mutual
 def fragE : Expr → Bool
   | .unit | .int _ | .str _ | .bool _ | .none | .todo | .var _ | .enumRef _ _ _ => true
@@ -41,10 +71,10 @@ def fragE : Expr → Bool
   | .ite c t f => fragE c && fragE t && fragE f
   | .call _ args => fragArgs args
   | .ffi _ _ _ args => fragArgs args
-  | .struct _ fields srcs => srcs.isEmpty && fragFields fields
+  | .struct _ fields _ => fragFields fields
   | .dot e _ => fragE e
   | .block ss e => fragSs ss && fragE e
-  | .mtch scrut arms => fragE scrut && fragArmsE arms && patsTotal (patsOfE arms)
+  | .mtch scrut arms => fragE scrut && fragArmsE arms && (patsTotal (patsOfE arms) || patsFlat (patsOfE arms))
   | .cast _ _ | .substruct _ _ => false
 def fragPat : Pat → Bool
   | .default => true
@@ -67,7 +97,7 @@ def fragS : Stmt → Bool
   | .ifS brs _ els => fragBrs brs && fragSs els
   | .ret e => fragE e
   | .dassert e => fragE e
-  | .mtch scrut arms => fragE scrut && fragArmsS arms && patsTotal (patsOfS arms)
+  | .mtch scrut arms => fragE scrut && fragArmsS arms && (patsTotal (patsOfS arms) || patsFlat (patsOfS arms))
 def fragSs : List Stmt → Bool
   | [] => true
   | s :: ss => fragS s && fragSs ss
@@ -116,15 +146,18 @@ structure Ctx (cx : LCtx) (p : Program) : Prop where
   hbuiltin : ∀ f, isBuiltin f = true → cx.sigs.find? (·.1 == f) = builtinSigs.find? (·.1 == f)
   hcall : ∀ f g params rt, isBuiltin f = false → cx.sigs.find? (·.1 == f) = some (g, params, rt) →
     ∃ fd, p.funDef f = some fd ∧ fd.params = params ∧ fd.ret = rt ∧ FunOk cx fd
+  /-- the enum definitions the lowering pass consults are the program's; variants are distinct -/
+  hE : cx.enums = p.enums
+  hEnd : ∀ q ∈ p.enums, q.2.Nodup
 
 abbrev FitV (p : Program) (t : Ty) : Val → Prop := fun v => Fit p v t
 
 /-- the patterns of a match, lowered left to right with the scrutinee type being refined -/
-inductive PatsLow (cx : LCtx) (sc : Scopes) : Ty → List Pat → List Pat → Prop where
-  | nil (st : Ty) : PatsLow cx sc st [] []
-  | cons {st st' : Ty} {pat pat' : Pat} {bs : List (Nat × Ty)} {rest rest' : List Pat} :
-      lowerPat cx sc st pat = some (st', pat', bs) → fragPat pat = true → PatsLow cx sc st' rest rest' →
-      PatsLow cx sc st (pat :: rest) (pat' :: rest')
+inductive PatsLow (cx : LCtx) (sc : Scopes) : Ty → List Pat → List Pat → Ty → Prop where
+  | nil (st : Ty) : PatsLow cx sc st [] [] st
+  | cons {st st' stF : Ty} {pat pat' : Pat} {bs : List (Nat × Ty)} {rest rest' : List Pat} :
+      lowerPat cx sc st pat = some (st', pat', bs) → fragPat pat = true → PatsLow cx sc st' rest rest' stF →
+      PatsLow cx sc st (pat :: rest) (pat' :: rest') stF
 
 /-- the selected arm's binding pattern (if it has one) matches the scrutinee's wrapper -/
 def BindOk (v : Val) : Pat → Prop
@@ -134,7 +167,8 @@ def BindOk (v : Val) : Pat → Prop
 /-- arm `pat` is certainly selected for `v` (if no earlier arm is) -/
 def ArmHits (v : Val) : Pat → Prop
   | .default => True
-  | .values vs => (∃ pe w x, pe ∈ vs ∧ bindingOf pe = some (w, x) ∧ isWrap w v = true) ∨ (Expr.none ∈ vs ∧ v = .none)
+  | .values vs => (∃ pe w x, pe ∈ vs ∧ bindingOf pe = some (w, x) ∧ isWrap w v = true) ∨
+    (∃ pe lit, pe ∈ vs ∧ litVal pe = some lit ∧ v.beq lit = true)
 def Total (v : Val) (pats : List Pat) : Prop := ∃ pat ∈ pats, ArmHits v pat
 
 /-- invariant of the struct under construction: conforming values inside, and every field that is
@@ -165,7 +199,7 @@ structure Snd (cx : LCtx) (p : Program) (n : Nat) : Prop where
       (evalFields p n env log d fs' (.struct name afs))
   mv : ∀ rt sc st vs stF vs' bs env log v, fragArgs vs = true → lowerPatValsE (cx.withRet rt) sc st vs = some (stF, vs', bs) →
     rt.neverFree = true → EnvOk p sc env → ROk (fun (_ : Bool) => True) (FitV p rt) (matchVals p n env log v vs')
-  sel : ∀ rt sc st pats pats' env log v k, PatsLow (cx.withRet rt) sc st pats pats' → Total v pats' →
+  sel : ∀ rt sc st stF pats pats' env log v k, PatsLow (cx.withRet rt) sc st pats pats' stF → Total v pats' →
     rt.neverFree = true → EnvOk p sc env →
     ROk (fun j => ∃ i pat, j = k + i ∧ pats'[i]? = some pat ∧ BindOk v pat) (FitV p rt) (selectArm p n env log v pats' k)
   call : ∀ f fd vs log, p.funDef f = some fd → FunOk cx fd → ArgsFit p vs (fd.params.map (·.2)) →
